@@ -256,6 +256,7 @@ theorem corr_step {s : St} {a : Act} (h : Corr s) (he : enabled s a = true) : Co
   | connRejectReady => frame_case h
   | connNegDone n => frame_case h
   | connNegErrs => frame_case h
+  | connNegClosed => frame_case h
   | connReady => frame_case h
   | connServeErr => frame_case h
   | connServeDone => frame_case h
@@ -468,6 +469,10 @@ theorem life_connNegErrs {s : St}  (h : Life s) (he : enabled s .connNegErrs = t
   obtain ⟨a1, a2, a3, a4, a5, a6, a7, a8, a9, a10, a11, a12, a13, a14, a15, a16, a17⟩ := h
   life_case
 
+theorem life_connNegClosed {s : St}  (h : Life s) (he : enabled s .connNegClosed = true) : Life (eff s .connNegClosed) := by
+  obtain ⟨a1, a2, a3, a4, a5, a6, a7, a8, a9, a10, a11, a12, a13, a14, a15, a16, a17⟩ := h
+  life_case
+
 theorem life_connReady {s : St}  (h : Life s) (he : enabled s .connReady = true) : Life (eff s .connReady) := by
   obtain ⟨a1, a2, a3, a4, a5, a6, a7, a8, a9, a10, a11, a12, a13, a14, a15, a16, a17⟩ := h
   simp [enabled] at he
@@ -522,6 +527,7 @@ theorem life_step {s : St} {a : Act} (h : Life s) (he : enabled s a = true) : Li
   | connNegSend c t p => exact life_connNegSend c t p h he
   | connNegDone n => exact life_connNegDone n h he
   | connNegErrs  => exact life_connNegErrs  h he
+  | connNegClosed  => exact life_connNegClosed  h he
   | connReady  => exact life_connReady  h he
   | connServeErr  => exact life_connServeErr  h he
   | connServeDone  => exact life_connServeDone  h he
